@@ -4,6 +4,7 @@ import (
 	"bytes"
 	"encoding/json"
 	"fmt"
+	"go/token"
 	"math/rand"
 	"regexp"
 	"strings"
@@ -11,6 +12,8 @@ import (
 
 	"github.com/dave/dst"
 	"github.com/dave/dst/decorator"
+	"github.com/dave/dst/decorator/resolver/simple"
+	"github.com/dave/dst/decorator/resolver/goast"
 )
 
 func init() { register("C05", "model_checking", checkC05) }
@@ -96,6 +99,26 @@ var spKinds = []spKind{
 		}
 		return out
 	}, false, false, true},
+	// the same lists with package-qualified elements: decorated with import resolution the elements are
+	// single identifiers carrying a path, and the import-managing restorer renders them itself
+	{"CompositeLit.Elts(qualified)", func(n int) string {
+		return spQualHead + "var x = []int{\n" + labels(n, func(i int) string { return fmt.Sprintf("\tlib.e%d,", i) }, "\n") + "\n}\n"
+	}, func(f *dst.File) []dst.Node {
+		var out []dst.Node
+		for _, s := range f.Decls[1].(*dst.GenDecl).Specs[0].(*dst.ValueSpec).Values[0].(*dst.CompositeLit).Elts {
+			out = append(out, s)
+		}
+		return out
+	}, false, false, true},
+	{"CallExpr.Args(qualified)", func(n int) string {
+		return spQualHead + "var x = g(\n" + labels(n, func(i int) string { return fmt.Sprintf("\tlib.e%d,", i) }, "\n") + "\n)\n"
+	}, func(f *dst.File) []dst.Node {
+		var out []dst.Node
+		for _, s := range f.Decls[1].(*dst.GenDecl).Specs[0].(*dst.ValueSpec).Values[0].(*dst.CallExpr).Args {
+			out = append(out, s)
+		}
+		return out
+	}, false, false, true},
 	exprKind("FuncDecl.Params", func(n int) string {
 		return "package p\n\nfunc f(" + labels(n, func(i int) string { return fmt.Sprintf("e%d int", i) }, ", ") + ") {}\n"
 	}, func(f *dst.File) []dst.Node {
@@ -175,6 +198,8 @@ func exprKind(name string, src func(n int) string, elems func(f *dst.File) []dst
 	return spKind{Name: name, Src: src, Elems: elems, Decs: false, KeepLast: false, Expr: true}
 }
 
+const spQualHead = "package p\n\nimport \"example.com/lib\"\n\n"
+
 var spLabelRe = regexp.MustCompile(`\be\d+\b|[st]\d+\.\d+`)
 
 func spDecText(kind string, who string, k int) string {
@@ -190,7 +215,14 @@ func spDecText(kind string, who string, k int) string {
 // spPrint builds the list with the given spacing/decorations on the real tree, prints it with the
 // real restorer and returns the observed line structure.
 func spPrint(k spKind, es []spElem) (lines [][]string, text string, errMsg string) {
-	f, err := decorator.Parse(k.Src(len(es)))
+	qualified := strings.HasSuffix(k.Name, "(qualified)")
+	var f *dst.File
+	var err error
+	if qualified {
+		f, err = decorator.NewDecoratorWithImports(token.NewFileSet(), "example.com/p", goast.WithResolver(simple.New(map[string]string{"example.com/lib": "lib"}))).Parse(k.Src(len(es)))
+	} else {
+		f, err = decorator.Parse(k.Src(len(es)))
+	}
 	if err != nil {
 		return nil, "", "harness: " + err.Error()
 	}
@@ -211,14 +243,29 @@ func spPrint(k spKind, es []spElem) (lines [][]string, text string, errMsg strin
 		}
 	}
 	var buf bytes.Buffer
-	if msg := guard(func() { err = decorator.Fprint(&buf, f) }); msg != "" {
+	if msg := guard(func() {
+		if qualified {
+			for _, n := range nodes {
+				if id, ok := n.(*dst.Ident); !ok || id.Path != "example.com/lib" {
+					err = fmt.Errorf("harness: element is not a path-carrying identifier")
+					return
+				}
+			}
+			err = decorator.NewRestorerWithImports("example.com/p", simple.New(map[string]string{"example.com/lib": "lib"})).Fprint(&buf, f)
+		} else {
+			err = decorator.Fprint(&buf, f)
+		}
+	}); msg != "" {
 		return nil, "", msg
 	}
 	if err != nil {
+		if strings.HasPrefix(err.Error(), "harness:") {
+			return nil, "", err.Error()
+		}
 		return nil, "", "print error: " + err.Error()
 	}
 	text = buf.String()
-	body := strings.TrimPrefix(text, "package p\n\n")
+	body := strings.TrimPrefix(strings.TrimPrefix(text, spQualHead), "package p\n\n")
 	body = strings.TrimSuffix(body, "\n")
 	ls := strings.Split(body, "\n")
 	if k.Name == "SwitchStmt.Cases" && len(ls) >= 3 {
@@ -361,6 +408,9 @@ func checkC05(c *Ctx) {
 		c.Eval(key, nontriv)
 		if msg != "" {
 			// printing may legitimately fail only by returning an error for unparseable layouts; a panic is a finding
+			if strings.HasPrefix(msg, "harness:") {
+				c.Infra(j.k.Name + ": " + msg)
+			}
 			if strings.HasPrefix(msg, "panic") {
 				c.Fail(Finding{Sig: "spacing-print-panic", Input: key, What: msg, Replay: obj{"kind": "c05", "list": j.k.Name, "elems": j.es}})
 			}
